@@ -216,9 +216,10 @@ def _lint_call(n, ty, ft, hit):
             hit("T4", n, "%s() of nodes: calls __hash__ on each" % name)
         if name in ("any", "all") and _seq_of_nodes(t0):
             hit("T3", n, "%s() applied directly to nodes: takes the truth value of each" % name)
-        if name == "filter" and len(args) == 2 and isinstance(args[0], ast.Constant) and args[0].value is None \
-                and is_node_seq(ty(args[1])):
-            hit("T3", n, "filter(None, nodes): takes the truth value of each node")
+        if name == "filter" and len(args) == 2 and is_node_seq(ty(args[1])):
+            t_f = ty(args[0])
+            if (isinstance(args[0], ast.Constant) and args[0].value is None) or (t_f is not None and "top" not in t_f and "none" in t_f):
+                hit("T3", n, "filter(<possibly None>, nodes): with None as function the truth value of each node is taken")
         if name in ("sorted", "max", "min") and _kw(n, "key") is None:
             if _seq_of_nodes(t0) and len(args) == 1:
                 hit("T2", n, "%s() of nodes without key: orders them with __lt__" % name)
@@ -252,6 +253,10 @@ def lint_decorators(func, typer):
     for d in func.decorators:
         base = d.func if isinstance(d, ast.Call) else d
         name = base.attr if isinstance(base, ast.Attribute) else (base.id if isinstance(base, ast.Name) else "")
+        if isinstance(base, ast.Name):
+            r = typer.p.resolve_name(func.module, base.id)
+            if r is not None and r[0] == "ext" and r[1].split(".")[-1] in CACHE_DECORATORS and not r[1].startswith("fastcache"):
+                name = r[1].split(".")[-1]
         if name in CACHE_DECORATORS:
             seeds = typer.seed_params(func)
             nodeparams = [p for p, v in seeds.items() if has_node(v)]
